@@ -202,6 +202,32 @@ Qed.
         * now rewrite Hf, Hr.
         * destruct Hf as [-> ->]. now rewrite Hr.
   Qed.
+(* ---- unknown fields do not reach the struct: whatever a field the schema does not know is called and wherever it
+   stands in the paragraph, the decoded record is the same as without it (the decoder looks up the schema's keys and
+   nothing else - after repairs 9b74866 and e5a0c35 also when the name is that of a Go field inside a nested struct
+   or of the embedded Paragraph) ---- *)
+Lemma lookup_insert_other k v j pre post : j <> k -> lookup j (pre ++ (k, v) :: post) = lookup j (pre ++ post).
+Proof.
+  intros N. induction pre as [|[a b] pre IH]; cbn [app lookup].
+  - destruct (str_eqb_spec k j); [congruence|reflexivity].
+  - destruct (str_eqb a j); [reflexivity|exact IH].
+Qed.
+Theorem decode_ignores_unknown_field : forall sch k v pre post, ~ In k (map fkey sch) ->
+  decode sch (pre ++ (k, v) :: post) = decode sch (pre ++ post).
+Proof.
+  induction sch as [|f sch IH]; intros k v pre post N; [reflexivity|]. cbn [decode].
+  assert (Nf : fkey f <> k) by (intros E; apply N; left; exact E).
+  assert (Ns : ~ In k (map fkey sch)) by (intros I; apply N; right; exact I).
+  rewrite (lookup_insert_other k v (fkey f) pre post Nf). rewrite (IH k v pre post Ns). reflexivity.
+Qed.
+(* ... and several of them *)
+Theorem decode_ignores_unknown_fields : forall sch extra p, Forall (fun kv => ~ In (fst kv) (map fkey sch)) extra ->
+  decode sch (extra ++ p) = decode sch p.
+Proof.
+  intros sch extra p F. induction F as [|[k v] extra Hk _ IH]; [reflexivity|].
+  change (((k, v) :: extra) ++ p) with ([] ++ (k, v) :: (extra ++ p)). rewrite decode_ignores_unknown_field by exact Hk. exact IH.
+Qed.
+
 End Codec.
 Print Assumptions C09_roundtrip.
 Print Assumptions C09_passthrough_order.
